@@ -51,6 +51,7 @@ class _YieldGroups(Contract):
     callees = AGG_CALLEES
     drop = False
     holder = None
+    timeout_ms = 45000          # two obligations of the drop_na variant need ~10 s of z3; keep the verdict stable under load
 
     def setup(self, cx):
         x = sym_vector(cx, "x")
@@ -115,6 +116,10 @@ class _YieldGroups(Contract):
 
     def output(self, cx, result):
         from pyvc.interp import GenValue
+        from pyvc.core import MList
+        if isinstance(result, MList):          # the Numba twin returns a list
+            cx.prove("result-is-a-list", True)
+            return result.seq
         ok = isinstance(result, GenValue)
         cx.prove("result-is-a-generator", ok)
         if not ok:
@@ -134,3 +139,85 @@ def _mk_yg(variant_, drop_, qual="yield_groups"):
 
 YieldGroupsKeep = _mk_yg("drop_na=False", False)
 YieldGroupsDrop = _mk_yg("drop_na=True", True)
+
+
+# ---- C08: the Numba twins, at source level ---------------------------------------------------------------------------
+# yield_groups_numba is verified against the SAME contract as yield_groups (hence the two sources agree on every input,
+# under Python semantics); is_na_numba against the is_na contract restricted to the kinds Numba sees.
+YieldGroupsNumbaKeep = _mk_yg("drop_na=False", False, qual="yield_groups_numba")
+YieldGroupsNumbaKeep.prop = "C08"
+YieldGroupsNumbaKeep.also = ()
+
+
+class NumbaType:
+    """The Numba type of the elements of an array of a given dtype kind (assumed mapping: float -> types.Float,
+    datetime -> types.NPDatetime, timedelta -> types.NPTimedelta, strings -> types.UnicodeType, int -> types.Integer,
+    bool -> types.Boolean)."""
+    MAP = {"float": "numba.Float", "datetime": "numba.NPDatetime", "timedelta": "numba.NPTimedelta", "string": "numba.UnicodeType",
+           "int": "numba.Integer", "uint": "numba.Integer", "bool": "numba.Boolean"}
+
+    def __init__(self, kind):
+        self.kind = kind
+
+    def pyvc_isinstance(self, it, t):
+        return self.MAP.get(self.kind) == t.name
+
+
+def _mk_overload(kind_):
+    class O(Contract):
+        """is_na_item_numba_overload: the implementation Numba selects for elements of this dtype kind flags exactly the
+        missing values - i.e. agrees with Vector.is_na, which the pure-Python twin uses."""
+        file, qualname, prop, variant = F, "is_na_item_numba_overload", "C08", f"element kind {kind_}"
+
+        def setup(self, cx):
+            return {"self": None, "args": [NumbaType(kind_)]}
+
+        def ensures(self, cx, result):
+            e = cx.val("element")
+            k = KCODE[kind_]
+            # typed element
+            cx.assume(z3.And(z3.Implies(is_nan(e), k == KCODE["float"]), z3.Implies(is_nat(e), z3.Or(k == KCODE["datetime"], k == KCODE["timedelta"])),
+                             z3.Implies(e == NONE, k == KCODE["object"]), z3.Implies(e == M.to_v(cx.it, ""), z3.Or(k == KCODE["string"], k == KCODE["fixedstr"]))))
+            got = cx.it.call(result, [e], {})
+            got = got if M.is_z3(got) else z3.BoolVal(bool(got))
+            cx.prove("selected implementation == Vector.is_na on this kind", got == na_formula(cx.it, z3.IntVal(k), e))
+    O.__name__ = "Overload_" + kind_
+    return register(O)
+
+
+for _k in ("bool", "int", "float", "datetime", "timedelta"):
+    _mk_overload(_k)
+
+
+def is_na_numba_contract(it, args, kwargs):
+    """Callee contract of is_na_numba: element-wise application of the implementation selected by the overload table
+    (proved above to agree with Vector.is_na on every kind eligible for Numba)."""
+    return vector_is_na_contract(it, args, kwargs)
+
+
+NUMBA_CALLEES = dict(AGG_CALLEES)
+NUMBA_CALLEES["is_na_numba"] = is_na_numba_contract
+YieldGroupsNumbaKeep.callees = NUMBA_CALLEES
+YieldGroupsNumbaDrop = _mk_yg("drop_na=True", True, qual="yield_groups_numba")
+YieldGroupsNumbaDrop.prop = "C08"
+YieldGroupsNumbaDrop.also = ()
+YieldGroupsNumbaDrop.callees = NUMBA_CALLEES
+
+
+@register
+class UseNumbaEligibility(Contract):
+    """use_numba(x): the accelerated twin is chosen only when USE_NUMBA is on and the column is boolean, integer
+    (incl. timedelta, which NumPy files under integer), float or datetime."""
+    file, qualname, prop = F, "use_numba", "C08"
+    always_bounded = True       # the JIT / cache / compile-order part of C08 exists only as a bounded run-time contract
+
+    def setup(self, cx):
+        return {"self": None, "args": [sym_vector(cx, "x")]}
+
+    def ensures(self, cx, result):
+        x = cx.inputs["args"][0]
+        k = x.sym["kind"]
+        flag = cx.it.config.get("USE_NUMBA")
+        eligible = z3.Or(*[k == KCODE[n] for n in ("bool", "int", "uint", "float", "datetime", "timedelta")])
+        r = result if M.is_z3(result) else z3.BoolVal(bool(result))
+        cx.prove("chosen iff enabled and eligible kind", r == z3.And(flag, eligible))
